@@ -105,10 +105,13 @@ def check_function(ctx, A, ab, _a, t, r, care_sets, rng):
     for care in care_sets:
         cs = None if care is None else set(care)
         judged = True
+        # `care_vars` is declared as a set: only re-iterable collections
+        # (a one-shot iterator is outside the declared domain)
         form = (t + len(care or ())) % 4
         arg = cs if cs is None or form == 0 else (
             list(cs) if form == 1 else frozenset(cs) if form == 2
             else {v: 0 for v in cs}.keys())
+        ctx.counters[f'care_vars_form_{form}'] += 1
         ms = list(bdd.pick_iter(r, arg) if form % 2 else
                   bdd.pick_iter(u=r, care_vars=arg))
         ctx.counters['pick_iter_results'] += 1
